@@ -429,7 +429,9 @@ func c07SweepOne(s *c07Sweep, c *rt.Ctx, r *rand.Rand, i int, name string, v avf
 var c07WinPaths = []string{"", ".", "..", `\`, `/`, `C:`, `C:\`, `C:/`, `c:\w`, `C:\w`, `C:\w\a`, `C:\w\a\b`, `C:\w\a\..`, `C:\w\a\b\c`, `C:\w\f`, `C:\w\f\x`, `C:w`, `C:w\a`, `C:..`,
 	`\w`, `\w\a`, `/w/a`, `C:/w/a`, `C:\w/a`, `w`, `w\a`, `.\w\a`, `..\w`, `C:\w\..\..`, `C:\w\\a`, `C:\w\a\`, `D:`, `D:\`, `D:\x`, `D:\x\y`, `D:x`, `E:\`, `E:\f`, `Z:\`, `1:\`, `::`, `C::`,
 	`\\host\share`, `\\host\share\`, `\\host\share\x`, `\\host`, `\\`, `\\\`, `\\.\C:`, `\\.\C:\w`, `\\?\C:\w`, `\\?\UNC\host\share\x`, `\??\C:\w`, `//host/share/x`, `\\.\nul`,
-	"C:\\w\\\x00", `con`, `C:\w\nul`, `C:\w\` + strings.Repeat("n", 300), `C:` + strings.Repeat(`\d`, 200), "*", `C:\w\*`, "[", `C:\w\[`, `C:\*\*`, `D:\*`, "x*y", `a\b`, `C:\tmp`, `C:\Users`}
+	"C:\\w\\\x00", `con`, `C:\w\nul`, `C:\w\` + strings.Repeat("n", 300), `C:` + strings.Repeat(`\d`, 200), "*", `C:\w\*`, "[", `C:\w\[`, `C:\*\*`, `D:\*`, "x*y", `a\b`, `C:\tmp`, `C:\Users`,
+	// metacharacters inside what would be the volume name, with nothing after it
+	`\\host\sha*`, `\\ho?t\share`, `\\host\*`, `\\*`, `\\.\C*`, `\\?\*`, `\??\*`, `\\[h]ost\share`, `C*`, `?:`, `C:*`, `\\host\share*\x`}
 
 func c07WinInstance(r *rand.Rand, which int) (string, avfs.VFS) {
 	mk := func(fsType string) avfs.VFS {
